@@ -391,6 +391,18 @@ def gen_part(rng, pid, skeleton, occ, empty=False):
 
 
 def gen_score(rng):
+    """parts that start equally early (equal exact pickup) have the same first time signature: `pad_bar` takes the
+    bar of "the" earliest part, and among parts that tie exactly the code's choice depends on the last bit of a
+    binary64 quarter time"""
+    for _ in range(50):
+        sd = gen_score1(rng)
+        first = {}
+        if all(first.setdefault(pickup_of(pd), ts_in_force(pd, 0)) == ts_in_force(pd, 0) for pd in sd["parts"] if pickup_of(pd) > 0):
+            return sd
+    return sd
+
+
+def gen_score1(rng):
     nparts = rng.choice([1, 1, 2, 2, 3])
     shared = rng.random() < 0.7
     sk = gen_skeleton(rng)
@@ -438,6 +450,9 @@ def cases(rng, tier):
             yield {"k": "agpv", "mode": rng.choice(MODES + [6]), "trch": [list(x) for x in tc]}
         else:
             yield {"k": "tied", "seed": rng.randrange(2 ** 31)}
+    # raw MIDI files for the two readers: zero-velocity note ons, re-struck and orphan notes, several channels
+    for _ in range(40 if tier == "quick" else 1500):
+        yield {"k": "raw", "seed": rng.randrange(2 ** 31), "mode": rng.choice(MODES)}
     n = 100 if tier == "quick" else (1500 if tier == "thorough" else 1200)
     for i in range(n):
         sd = gen_score(random.Random(rng.randrange(2 ** 62)))
@@ -549,6 +564,16 @@ def with_timeout(sec, f, *a, **kw):
         signal.signal(signal.SIGALRM, old)
 
 
+def conflicting_signatures(tracks):
+    for tr in tracks:
+        at = {}
+        for t, _, m in tr:
+            if m.type == "time_signature":
+                if at.setdefault(t, (m.numerator, m.denominator)) != (m.numerator, m.denominator):
+                    return True
+    return False
+
+
 def call(f, *a, **kw):
     try:
         return f(*a, **kw), None
@@ -618,6 +643,64 @@ def evaluate(d):
             if 0 <= d["mode"] <= 5:
                 ev.oracle += mode_import_oracle(d["mode"], tc, gpv)
         ev.key = "agpv:%d:%r" % (d["mode"], tc)
+    elif k == "raw":
+        import mido
+        from partitura.io.importmidi import load_score_midi, load_performance_midi
+
+        rng = random.Random(d["seed"])
+        ppq = rng.choice([4, 12, 96, 480])
+        unit = max(1, ppq // 4)
+        mf = mido.MidiFile(type=1, ticks_per_beat=ppq)
+        for ti in range(rng.randint(1, 3)):
+            tr = mido.MidiTrack()
+            mf.tracks.append(tr)
+            if rng.random() < 0.7:
+                tr.append(mido.MetaMessage("time_signature", numerator=rng.choice([2, 3, 4, 6]), denominator=rng.choice([4, 8]), time=0))
+            for _ in range(rng.randint(0, 14)):
+                dt = rng.choice([0, 0, 1, 1, 2, 4]) * unit
+                r = rng.random()
+                pitch, ch = rng.choice([60, 60, 62, 64]), rng.choice([0, 0, 1])
+                if r < 0.45:
+                    tr.append(mido.Message("note_on", note=pitch, channel=ch, velocity=rng.choice([0, 1, 64, 127, 64, 90]), time=dt))
+                elif r < 0.8:
+                    tr.append(mido.Message("note_off", note=pitch, channel=ch, velocity=rng.choice([0, 64]), time=dt))
+                elif r < 0.86:
+                    tr.append(mido.MetaMessage("set_tempo", tempo=rng.choice([400000, 500000, 750000]), time=dt))
+                elif r < 0.92:
+                    tr.append(mido.MetaMessage("key_signature", key=rng.choice(["C", "Am", "F#", "Ebm"]), time=dt))
+                elif r < 0.96:
+                    tr.append(mido.MetaMessage("time_signature", numerator=rng.choice([3, 4, 5]), denominator=4, time=dt))
+                else:
+                    tr.append(mido.Message("control_change", control=64, value=rng.choice([0, 127]), channel=ch, time=dt))
+        buf = io.BytesIO()
+        mf.save(file=buf)
+        buf.seek(0)
+        mf = mido.MidiFile(file=buf)
+        tracks = file_tracks(mf)
+        ttoks = W.lst(lambda tr: W.lst(lambda x: "%d %s" % (x[1], msg_token(x[2])), tr), tracks)
+        perf, e2 = call(load_performance_midi, mf)
+        # seconds of notes under tempo changes in later tracks are C06's subject (PerformedNote validation
+        # may refuse them): the tick pairing is compared whenever the reader returns
+        if not e2:
+            ev.requests.append("perf " + ttoks)
+            pnotes = [dict(n, track=pp.track) for pp in perf.performedparts for n in pp.notes]
+            ev.impl.append(W.f_list(lambda i: W.f_list(
+                lambda n: W.f_tuple(*[W.f_int(n[f]) for f in ("note_on_tick", "note_off_tick", "midi_pitch", "channel", "velocity")]),
+                sorted((n for n in pnotes if n["track"] == i),
+                       key=lambda n: (n["note_on_tick"], n["midi_pitch"], n["note_off_tick"], n["channel"]))), range(len(tracks))))
+        buf.seek(0)
+        sc2, e3 = call(with_timeout, 30, load_score_midi, mido.MidiFile(file=buf), part_voice_assign_mode=d["mode"])
+        n_notes = sum(1 for tr in tracks for _, _, m in tr if m.type == "note_on" and m.velocity > 0) if e2 else len(pnotes)
+        # the importer's part construction (measures, ties, tuplets: C11) may reject arbitrary material; the
+        # pairing and grouping are compared whenever it returns, and its refusal of a file without notes
+        if not e3:
+            ev.requests.append("imp %d %s" % (d["mode"], ttoks))
+            ev.impl.append(import_text(sc2))
+        elif n_notes == 0:
+            ev.requests.append("imp %d %s" % (d["mode"], ttoks))
+            ev.impl.append("err")
+        ev.info = {"raw_import_raised": bool(e3) and n_notes > 0, "raw_perf_raised": bool(e2)}
+        ev.key = "raw:%d:%d" % (d["seed"], d["mode"]) if n_notes else None
     elif k == "tied":
         rng = random.Random(d["seed"])
         sd = G.random_part_desc(rng, p_tie=0.5, n_measures=rng.randint(1, 4))
@@ -736,6 +819,12 @@ def eval_score(d):
             ev.oracle += oracle(sd, order, cfg, mf, tracks, pnotes, None, tag)
             continue
         sc2, e3 = call(with_timeout, 60, load_score_midi, mido.MidiFile(file=buf), part_voice_assign_mode=mode)
+        if e3 and not isinstance(e3, Timeout) and conflicting_signatures(tracks):
+            # parts with different metres merged into one track (modes 1, 2, 4): the track states two
+            # different time signatures at one tick, which no score has; create_part/add_measures may reject
+            # it (C11's subject).  Outside the property's domain: neither compared nor judged.
+            ev.oracle += oracle(sd, order, cfg, mf, tracks, pnotes, None, tag)
+            continue
         ev.requests.append("imp %d %s" % (mode, ttoks))
         if e3:
             ev.impl.append("err")
@@ -778,7 +867,7 @@ def import_text(sc):
             W.f_list(lambda t: W.f_tuple(*[W.f_int(x) for x in t]), tss),
             W.f_list(lambda k: W.f_tuple(W.f_int(k[0]), k[1]), kss))))
     first = sc.parts[0]
-    tempos = [(tp.start.t, tp.microseconds_per_quarter) for tp in first.iter_all(S.Tempo)]
+    tempos = sorted((tp.start.t, tp.microseconds_per_quarter) for tp in first.iter_all(S.Tempo))
     rows.sort(key=lambda r: r[0])
     return "[" + ",".join(r[1] for r in rows) + "]|" + W.f_list(lambda t: W.f_tuple(W.f_int(t[0]), W.f_int(t[1])), tempos)
 
@@ -1061,6 +1150,8 @@ def distribution(descs, results):
         "with_pickup": sum(1 for d in sc if any(pickup_of(pd) > 0 for pd in d["score"]["parts"])),
         "with_groups": sum(1 for d in sc if any(it[0] == "g" for it in d["score"].get("struct") or [])),
         "with_grace": sum(1 for d in sc if any(n["kind"] == "grace" for pd in d["score"]["parts"] for n in pd["notes"])),
+        "raw_files_perf_reader_raised": sum(1 for r in results if isinstance(r, dict) and (r.get("info") or {}).get("raw_perf_raised")),
+        "raw_files_importer_raised": sum(1 for r in results if isinstance(r, dict) and (r.get("info") or {}).get("raw_import_raised")),
         "with_ties": sum(1 for d in sc if any(n.get("tie") for pd in d["score"]["parts"] for n in pd["notes"])),
         "notes": sum(r.get("info", {}).get("notes", 0) for r in results if isinstance(r, dict)),
     }
